@@ -110,7 +110,26 @@ def describe(d):
 def c02b(ctx, tu):
     """creation order: expectations enter their list only by push_front in hook_last, called only by
     make_expectation with the list selected by the tag; iteration starts at the head."""
-    for fn in tu.need(A["hook_last"], 3):
+    merged = not tu.find(A["hook_last"])
+    if merged:
+        # hook_last has been merged into make_expectation: the insertion is read off there
+        n = 0
+        for f in tu.need("trompeloeil::call_validator_t::make_expectation", 3):
+            decls = {e["var"]: e for b, e in f.events() if e["e"] == "decl"}
+
+            def resolve(t, depth=0):
+                t = lib.strip_casts(t)
+                if isinstance(t, list) and t[:1] == ["var"] and t[1] in decls and depth < 4:
+                    return resolve(decls[t[1]].get("init"), depth + 1)
+                return t
+            ins = [e for b, e in f.events() if e["e"] == "call" and qe(e) in (A["push_front"], A["push_back"])
+                   and "trompeloeil_matcher_list" in str(resolve(e.get("recv")))]
+            n += len(ins)
+            ok = len(ins) == 1 and qe(ins[0]) == A["push_front"] and "::matcher" in str(ins[0].get("args"))
+            ctx.ob("C02.b", "trompeloeil::call_validator_t::make_expectation", ok, pattern=f.pat, unit=tu.name, inst=f.q,
+                   detail="" if ok else "a new expectation must be put at the front of the list the mock object returns "
+                   "for the expectation's tag (newest first), exactly once")
+    for fn in tu.find(A["hook_last"]):
         pushes = [e for b, e in fn.events() if e["e"] == "call" and qe(e) in (A["push_front"], A["push_back"])]
         ok = len(pushes) == 1 and qe(pushes[0]) == A["push_front"] and pushes[0].get("args") == [["this"]] \
             and pushes[0].get("recv", [None])[:2] == ["param", 0]
@@ -130,7 +149,8 @@ def c02b(ctx, tu):
                 ctx.ob("C02.b", f.qe, ok, pattern=short_loc(e.get("loc", "")), unit=tu.name, inst=f.q,
                        detail="" if ok else "expectations must be hooked only by make_expectation, into the list the "
                        "mock object returns for the expectation's tag")
-            if e["e"] == "call" and qe(e) in (A["push_front"], A["push_back"]) and f.qe not in (A["hook_last"],):
+            if e["e"] == "call" and qe(e) in (A["push_front"], A["push_back"]) and f.qe not in (A["hook_last"],) and \
+                    not (merged and f.qe == "trompeloeil::call_validator_t::make_expectation"):
                 r = str(e.get("recv"))
                 if "expectations<" in r and ("::active" in r):
                     ctx.ob("C02.b", f.qe, False, pattern=short_loc(e.get("loc", "")), unit=tu.name,
